@@ -18,7 +18,7 @@ run_demo() {
   for sc in run_demo.sh run.sh; do
     if [ -f "out/$N/$sc" ]; then (bash "out/$N/$sc" >/dev/null 2>&1) && return 0 || return 1; fi
   done
-  for p in $(demo_pkgs); do go test -count=1 -timeout 300s -tags "c01demo c02demo c03demo c06demo demo" "$p" >/dev/null 2>&1 || rc=1; done
+  for p in $(demo_pkgs); do go test -count=1 -timeout 300s -tags "verif c01demo c02demo c03demo c06demo demo" "$p" >/dev/null 2>&1 || rc=1; done
   if [ -z "$(demo_pkgs)" ]; then
     # demonstrations shipped as *.go.txt / *.go.src: copy into the package they declare and run them there
     rc=2
